@@ -34,6 +34,8 @@ type interpreter struct {
 	ps                 *pathState
 	ex                 *Explorer
 	initRun            map[*ssa.Package]bool
+	w                  *worker
+	skipInit           bool
 }
 
 type deferred struct {
@@ -75,6 +77,9 @@ func (fr *frame) get(key ssa.Value) value {
 		// lazily allocate (packages created after start)
 		cell := zero(mustDeref(key.Type()))
 		fr.i.globals[key] = &cell
+		if w := fr.i.w; w != nil && w.initValid {
+			w.registerGlobalCell(&cell)
+		}
 		fr.i.checkGlobal(fr, key)
 		return &cell
 	}
@@ -210,6 +215,7 @@ func visitInstr(fr *frame, instr ssa.Instruction) continuation {
 		if p == nil {
 			panic(runtimePanic{"invalid memory address or nil pointer dereference"})
 		}
+		i.noteWrite(p)
 		store(mustDeref(instr.Addr.Type()), p, fr.get(instr.Val))
 
 	case *ssa.If:
@@ -343,6 +349,7 @@ func visitInstr(fr *frame, instr ssa.Instruction) continuation {
 			if m == nil {
 				panic(runtimePanic{"assignment to entry in nil map"})
 			}
+			i.noteMapWrite(m)
 			m.insert(key, v)
 		default:
 			panic(fmt.Sprintf("illegal map type: %T", m))
